@@ -369,6 +369,10 @@ theorem transOne_core {s s' : St} (h : Core s) (p : CType × Key) (hr : transOne
       split at hr
       · simp only [Option.some.injEq] at hr; subst hr; exact h
       split at hr
+      · split at hr
+        · simp only [Option.some.injEq] at hr; subst hr; exact h
+        · cases hr
+      split at hr
       · cases hr
       rename_i hmod
       cases hx : s.caxes.get p.2 with
